@@ -8,3 +8,6 @@ open SSVerif.Protocol
 #print axioms C09_reachable_wf
 #print axioms C09_ledger_balanced
 #print axioms C09_used_iterators_are_live
+#print axioms C09_sys_reachable_wf
+#print axioms C09_sys_ledger_balanced
+#print axioms C09_instances_disjoint_step
